@@ -125,6 +125,13 @@ func (c *fRegistryImpl) dispatch(opid uint64, frame []byte) error {
 	c.mu.RUnlock()
 
 	verifYield("registry.dispatch.presend", opid)
-	resultC <- frame
+	// Never block the reader: the channel belongs to a single request, so if it
+	// is full the request already has a response waiting and this frame is a
+	// duplicate.
+	select {
+	case resultC <- frame:
+	default:
+		logger().Warnf("frugal: dropping duplicate response for opid %d", opid)
+	}
 	return nil
 }
